@@ -912,6 +912,10 @@ def lambda_skeleton_rule(ctx):
         rr.instances += 1
         got = render(p.result)
         what = f"Lambda|{short_ctx(p, 120)}"
+        if "{elem" in got or "elem(" in got:
+            # pieces of the signature went through containers the string model lost track of (pairs
+            # sliced and zipped, ...): the skeleton is not the repository's, nothing is concluded from it
+            raise AnalysisError(f"C11-R6: the lambda signature is assembled in a way the string model cannot follow (`{got[:100]}`)")
 
         def flag(frag, truthy=True):
             for k, v in p.assign.items():
